@@ -41,10 +41,10 @@ pub fn run<A: Cx>(d: &mut Drv<A>) {
         let obs = json!({"tfb": tfb_c, "ufb": ufb, "tfa": tfa_c, "ufa": ufa, "ch": ch, "bits": bits,
                          "comp": comp, "mask": mask, "unmask": unmask});
         let op = json!({"op": "cell", "c": A::NAME, "b": b});
-        d.out.push(crate::world::merge(&op, obs).to_string());
+        d.log_line(crate::world::merge(&op, obs).to_string());
     }
     let mut items: Vec<u64> = A::items().map(|x| x.to_bits() as u64).collect();
     items.sort();
     let op = json!({"op": "codecinfo", "c": A::NAME});
-    d.out.push(crate::world::merge(&op, json!({"w": A::BITS, "items": items})).to_string());
+    d.log_line(crate::world::merge(&op, json!({"w": A::BITS, "items": items})).to_string());
 }
